@@ -30,6 +30,63 @@ pub assume_specification<T: PartialEq> [<[T]>::contains] (s: &[T], x: &T) -> (r:
     ensures
         r == s@.contains(*x);
 
+// TRUSTED stand-in: the expression lexer as an oracle that delivers the token sequence of a text
+// (src/expression_engine/lexer.rs is not under contract; bounded-exhaustive replay only)
+#[verifier::external_body]
+pub struct ExpressionLexer {
+    _p: (),
+}
+
+/// the tokens of the text of a data value (`ExpressionLexer::new(script.to_string())`)
+pub uninterp spec fn tokens_of(d: Data) -> Seq<Token>;
+
+impl ExpressionLexer {
+    pub uninterp spec fn rest(&self) -> Seq<Token>;
+
+    /// the next token, `Token::EOE` when the text is used up
+    #[verifier::external_body]
+    pub fn next_token(&mut self) -> (r: Token)
+        ensures
+            old(self).rest().len() > 0 ==> r == old(self).rest()[0] && final(self).rest() == old(self).rest().drop_first(),
+            old(self).rest().len() == 0 ==> r == Token::EOE && final(self).rest() == old(self).rest(),
+    {
+        unimplemented!()
+    }
+}
+
+/// R19: `ExpressionLexer::new(script.to_string())`
+#[verifier::external_body]
+pub fn verif_lexer_for(script: &Data) -> (r: ExpressionLexer)
+    ensures
+        r.rest() == tokens_of(*script),
+{
+    unimplemented!()
+}
+
+/// R19: `token == Token::Identifier("In".to_string())` (derived PartialEq of Token)
+#[verifier::external_body]
+pub fn verif_token_is_identifier(t: &Token, name: &str) -> (r: bool)
+    ensures
+        r == (*t matches Token::Identifier(s) && s@ == name@),
+{
+    unimplemented!()
+}
+
+/// R19: `token == Token::Bracket(c)` / `token != Token::Bracket(c)`
+#[verifier::external_body]
+pub fn verif_token_is_bracket(t: &Token, c: char) -> (r: bool)
+    ensures
+        r == (*t matches Token::Bracket(b) && b == c),
+{
+    unimplemented!()
+}
+
+/// the null data model as far as In() needs it: the session data seen as owned state (A1) and the state-name table
+pub struct NullDatamodel {
+    pub global: GlobalData,
+    pub state_name_to_id: HashMap<String, StateId>,
+}
+
 pub mod trusted_axioms {
     use super::*;
 
